@@ -46,6 +46,10 @@ def len_program(d):
         "from_tuple": "let _a: %s = (%s).into();" % (ga(n), "0u8, " * k),
         "flatten_ann": "let aa: GenericArray<%s, %s> = GenericArray::default(); let _f: %s = aa.flatten();" % (ga(n), U(m), ga(k)),
         "unflatten_ann": "%s let _u: GenericArray<%s, %s> = a.unflatten();" % (a, ga(m), U(k)),
+        "from_chunks": "let v: Vec<[u8; %d]> = Vec::new(); let _g: &[%s] = GenericArray::from_chunks(&v);" % (k, ga(n)),
+        "from_chunks_mut": "let mut v: Vec<[u8; %d]> = Vec::new(); let _g: &mut [%s] = GenericArray::from_chunks_mut(&mut v);" % (k, ga(n)),
+        "into_chunks": "let v: Vec<%s> = Vec::new(); let _g: &[[u8; %d]] = GenericArray::into_chunks(&v);" % (ga(n), k),
+        "into_chunks_mut": "let mut v: Vec<%s> = Vec::new(); let _g: &mut [[u8; %d]] = GenericArray::into_chunks_mut(&mut v);" % (ga(n), k),
         "map_ann": "%s let _b: %s = a.map(|x| x as u16);" % (a, ga(k, "u16")),
         "zip_ann": "%s %s let _c: %s = a.zip(b, |x, y| (x as u16) + (y as u16));" % (a, b, ga(k, "u16")),
     }[op]
